@@ -193,6 +193,107 @@ func c16TypeSwitch(fset *token.FileSet, fd *ast.FuncDecl) [][2]string {
 	return out
 }
 
+// c16NameFlow classifies where the protobuf converter applies SanitizeMetricName / SanitizeNamespace:
+// [0] validateMetric assigns the sanitised string back to m.Name / m.Namespace, [1] the argument of the
+// CreateString that becomes the row's name / namespace is sanitised, [2] the string hashOfName writes into
+// the hash buffer is sanitised. Any other shape (another function applied, another assignment to
+// m.Name / m.Namespace) is an extraction failure: the model does not know it.
+func c16NameFlow(fset *token.FileSet, validate, marshal, hashOfName *ast.FuncDecl) (name, ns [3]bool, err error) {
+	const (
+		rawName = "m.Name"
+		sanName = "commonseries.SanitizeMetricName(m.Name)"
+		rawNs   = "m.Namespace"
+		sanNs   = "commonseries.SanitizeNamespace(m.Namespace)"
+	)
+	classify := func(what, src string, isNs bool) (bool, error) {
+		raw, san := rawName, sanName
+		if isNs {
+			raw, san = rawNs, sanNs
+		}
+		switch src {
+		case raw:
+			return false, nil
+		case san:
+			return true, nil
+		}
+		return false, fmt.Errorf("%s: %q is neither %s nor %s", what, src, raw, san)
+	}
+	// validateMetric: assignments to m.Name / m.Namespace
+	ast.Inspect(validate.Body, func(n ast.Node) bool {
+		as, ok := n.(*ast.AssignStmt)
+		if !ok || len(as.Lhs) != 1 || len(as.Rhs) != 1 || err != nil {
+			return true
+		}
+		lhs, rhs := c16Src(fset, as.Lhs[0]), c16Src(fset, as.Rhs[0])
+		switch lhs {
+		case rawName:
+			if rhs != sanName {
+				err = fmt.Errorf("validateMetric assigns m.Name = %s", rhs)
+			}
+			name[0] = true
+		case rawNs:
+			switch rhs {
+			case "string(rc.namespace)": // the request namespace overrides the metric's
+			case sanNs:
+				ns[0] = true
+			default:
+				err = fmt.Errorf("validateMetric assigns m.Namespace = %s", rhs)
+			}
+		}
+		return true
+	})
+	if err != nil {
+		return
+	}
+	// MarshalProtoMetricV1: metricName := rc.flatBuilder.CreateString(X); namespace := rc.flatBuilder.CreateString(Y)
+	seen := map[string]bool{}
+	ast.Inspect(marshal.Body, func(n ast.Node) bool {
+		as, ok := n.(*ast.AssignStmt)
+		if !ok || len(as.Lhs) != 1 || len(as.Rhs) != 1 || err != nil {
+			return true
+		}
+		lhs := c16Src(fset, as.Lhs[0])
+		if lhs != "metricName" && lhs != "namespace" {
+			return true
+		}
+		call, ok := as.Rhs[0].(*ast.CallExpr)
+		if !ok || c16Src(fset, call.Fun) != "rc.flatBuilder.CreateString" || len(call.Args) != 1 {
+			err = fmt.Errorf("MarshalProtoMetricV1: %s := %s is not a CreateString call", lhs, c16Src(fset, as.Rhs[0]))
+			return true
+		}
+		seen[lhs] = true
+		if lhs == "metricName" {
+			name[1], err = classify("MarshalProtoMetricV1 metricName", c16Src(fset, call.Args[0]), false)
+		} else {
+			ns[1], err = classify("MarshalProtoMetricV1 namespace", c16Src(fset, call.Args[0]), true)
+		}
+		return true
+	})
+	if err == nil && (!seen["metricName"] || !seen["namespace"]) {
+		err = fmt.Errorf("MarshalProtoMetricV1: the CreateString calls of metricName / namespace were not found")
+	}
+	if err != nil {
+		return
+	}
+	// hashOfName: rc.hashBuf.WriteString(<namespace>), rc.hashBuf.WriteString(<name>) in this order
+	var writes []string
+	ast.Inspect(hashOfName.Body, func(n ast.Node) bool {
+		if call, ok := n.(*ast.CallExpr); ok && c16Src(fset, call.Fun) == "rc.hashBuf.WriteString" && len(call.Args) == 1 {
+			writes = append(writes, c16Src(fset, call.Args[0]))
+		}
+		return true
+	})
+	if len(writes) != 2 {
+		err = fmt.Errorf("hashOfName writes %v into the hash buffer; the model knows namespace then name", writes)
+		return
+	}
+	if ns[2], err = classify("hashOfName namespace", writes[0], true); err != nil {
+		return
+	}
+	name[2], err = classify("hashOfName name", writes[1], false)
+	return
+}
+
 func init() {
 	Register(Fact{Module: "C16", Gen: func(repo string) (string, error) {
 		var sb strings.Builder
@@ -224,11 +325,42 @@ func init() {
 		var pipe []string
 		for _, c := range CallSeq(mp) {
 			switch c {
-			case "rc.validateMetric", "rc.deDupTags", "tag.XXHashOfKeyValues", "rc.hashOfName", "flatMetricsV1.MetricAddKvsHash", "flatMetricsV1.MetricAddTimestamp", "flatMetricsV1.MetricAddName", "flatMetricsV1.MetricAddNamespace":
+			case "rc.resetForNextConverter", "rc.validateMetric", "rc.deDupTags", "tag.XXHashOfKeyValues", "rc.hashOfName", "flatMetricsV1.MetricAddKvsHash", "flatMetricsV1.MetricAddTimestamp", "flatMetricsV1.MetricAddName", "flatMetricsV1.MetricAddNamespace":
 				pipe = append(pipe, c)
 			}
 		}
 		sb.WriteString("def marshalPipeline : List String := " + LeanStrList(pipe) + "\n\n")
+
+		// the pooled converter: what is reset when, and how a request takes it from the pool
+		for _, f := range [][3]string{
+			{"BrokerRowProtoConverter", "resetForNextConverter", "protoResetForNextSrc"},
+			{"BrokerRowProtoConverter", "Reset", "protoResetSrc"},
+			{"", "NewBrokerRowProtoConverter", "protoNewConverterSrc"},
+			{"BrokerRowProtoConverter", "ConvertTo", "protoConvertToSrc"},
+		} {
+			src, err := c16BodySrc(fset, FindFunc(cv, f[0], f[1]))
+			if err != nil {
+				return "", fmt.Errorf("%s.%s: %w", f[0], f[1], err)
+			}
+			def(f[2], src)
+		}
+
+		// where the converter sanitises name / namespace ('|' -> '_') relative to the two uses of the strings:
+		// the string written into the flat row (CreateString) and the string hashOfName hashes.
+		hn := FindFunc(cv, "BrokerRowProtoConverter", "hashOfName")
+		hns, err := c16BodySrc(fset, hn)
+		if err != nil {
+			return "", fmt.Errorf("hashOfName: %w", err)
+		}
+		def("hashOfNameSrc", hns)
+		nameFlow, nsFlow, err := c16NameFlow(fset, vm, mp, hn)
+		if err != nil {
+			return "", err
+		}
+		sb.WriteString("/-- metric NAME of the protobuf converter: sanitised (in place by validateMetric, in the argument of CreateString, in the argument hashOfName hashes) -/\n")
+		fmt.Fprintf(&sb, "def protoNameFlow : Bool × Bool × Bool := (%v, %v, %v)\n\n", nameFlow[0], nameFlow[1], nameFlow[2])
+		sb.WriteString("/-- NAMESPACE of the protobuf converter: the same three places -/\n")
+		fmt.Fprintf(&sb, "def protoNsFlow : Bool × Bool × Bool := (%v, %v, %v)\n\n", nsFlow[0], nsFlow[1], nsFlow[2])
 
 		// --- series/tag/tag.go
 		fsetT, tg, err := ParseFile(repo, "series/tag/tag.go")
